@@ -79,7 +79,8 @@ def genC07 (tier : Tier) (seed : Nat) (o : Out) : IO Unit := do
           emit (c07Scenario "allow" ⟨w, false⟩ 2 dry allow out)
   -- a failing generator after a clean / warnings-only compilation: the exit status comes from the generator
   for p in ([⟨[kClean], false⟩, ⟨[kWDep, kClean], false⟩] : List Program) do
-    for bad in ([.x 1 [] [], .missing, .x 0 (b "boom\n") []] : List BehSpec) do
+    -- the last one writes to stderr and still answers with a well-formed reply and exit status 0: it failed all the same
+    for bad in ([.x 1 [] [], .missing, .x 0 (b "boom\n") [], .x 0 (b "warning: something odd\n") (reply [gf "bad.txt" "B\n"] [])] : List BehSpec) do
       for allow in [[], ["All"]] do
         emit (c07Scenario "genfail" p 0 false allow outVariants.head! (some [c07Gen 0, ⟨"bad", [], bad⟩, c07Gen 2]))
   -- two errors in different phases: only the earlier phase speaks
